@@ -9,6 +9,9 @@
 -/
 import Ctrmml.Model.MdsConv
 import Ctrmml.Spec.SeqWf
+import Ctrmml.Proofs.CodecBreak
+import Ctrmml.Proofs.CodecWalkLoops
+import Ctrmml.Proofs.CodecTrack
 namespace Ctrmml.C03
 open Ctrmml Ctrmml.Mds Ctrmml.Seq Tables
 
@@ -106,5 +109,138 @@ theorem C03_finish_last (nS nM : Nat) (e e' : Enc) (h : encEv nS nM e ⟨mds_FIN
 /-! non-vacuity -/
 example : ∃ e', encOther 0 0 { out := [mds_LP, 0xa6, 0x17], breaks := [1] } mds_LPF 2 = .ok e' := ⟨_, rfl⟩
 example : ∃ e', encOther 0 0 { out := [0xa6, 0x17], segnoPos := 0 } mds_JUMP 0 = .ok e' := ⟨_, rfl⟩
+
+end Ctrmml.C03
+
+/-! ## Corollaries of the codec round trip (second layer; definitions as in Properties/C02.lean) -/
+namespace Ctrmml.C03
+open Ctrmml Ctrmml.Mds Ctrmml.Seq Ctrmml.Codec Tables
+
+/-- **The terminator is the last instruction** — for EVERY event list (no restriction): if the
+list ends with `FINISH`, `JUMP` or `DMFINISH`, the emitted stream ends with that opcode followed by
+exactly its operand bytes (0, 2, 1). -/
+theorem C03_stream_ends_with_terminator (nS nM : Nat) (es : List MEv) (term arg : Nat) (bytes : List Nat)
+    (ht : term = mds_FINISH ∨ term = mds_JUMP ∨ term = mds_DMFINISH)
+    (h : convertTrack nS nM (es ++ [⟨term, arg⟩]) = .ok bytes) :
+    ∃ pre ops, bytes = pre ++ term :: ops ∧
+      ops.length = (if term = mds_FINISH then 0 else if term = mds_JUMP then 2 else 1) := by
+  unfold convertTrack at h
+  rw [encAll_append] at h
+  cases he : encAll nS nM {} es with
+  | error x => rw [he] at h; simp [Except.map] at h
+  | ok e1 =>
+    rw [he] at h
+    rcases ht with rfl | rfl | rfl
+    · simp only [encAll, encEv_finish, Except.map, Except.ok.injEq] at h
+      exact ⟨e1.out, [], h.symm, rfl⟩
+    · simp only [encAll, encEv_jump, Except.map, Except.ok.injEq] at h
+      exact ⟨e1.out, [jumpOff e1 / 256, jumpOff e1 % 256], h.symm, rfl⟩
+    · have hb : encOther nS nM e1 mds_DMFINISH arg = .ok { e1 with out := e1.out ++ [mds_DMFINISH, arg % 256] } :=
+        encOther_byte nS nM e1 arg (by decide)
+      simp only [encAll, encEv_other (by decide) hb, Except.map, Except.ok.injEq] at h
+      exact ⟨e1.out, [arg % 256], h.symm, rfl⟩
+
+/-- **Never reads outside, never meets an unknown opcode, a missing length or an empty loop stack** —
+restriction: tracks whose bracket structure has no loop break (`noBreakL`), leaves in the linear
+fragment, terminated by `FINISH`.  For every fuel, tick limit, number of followed jumps and initial
+register contents the interpreter stops only with `finished`, `fuel` or `tooManyTicks`. -/
+theorem C03_codec_never_reads_outside_partial (nS nM : Nat) (ts : List Node) (hl : linL ts = true)
+    (hn : noBreakL ts = true) (farg : Nat) :
+    ∃ bytes, convertTrack nS nM (flatL ts ++ [⟨mds_FINISH, farg⟩]) = .ok bytes ∧
+      ∀ (base mj maxTicks fuel : Nat) (ln lr : Option Nat),
+        (run bytes base mj maxTicks fuel { pc := 0, lastNote := ln, lastRest := lr }).2 ∈
+          [Stop.finished, Stop.fuel, Stop.tooManyTicks] := by
+  obtain ⟨bytes, h1, h2⟩ := codec_roundtrip_loops_nobreak nS nM ts hl hn farg
+  exact ⟨bytes, h1, fun base mj maxTicks fuel ln lr => (h2 base mj ln lr).safe maxTicks fuel⟩
+
+/-- the same for every bracket structure, loops WITH break included (restriction: leaves in the
+linear fragment, terminated by `FINISH`, stream shorter than 64 KiB; `Codec.encL` = the structured
+encoder of `C02_convert_structured_eq`) -/
+theorem C03_codec_never_reads_outside_loops_partial (nS nM : Nat) (ts : List Node) (hl : linL ts = true)
+    (farg : Nat) :
+    ∃ e', encL nS nM ts {} = .ok e' ∧
+      (e'.out.length + 1 < 65536 →
+        convertTrack nS nM (flatL ts ++ [⟨mds_FINISH, farg⟩]) = .ok (e'.out ++ [mds_FINISH]) ∧
+        ∀ (base mj maxTicks fuel : Nat) (ln lr : Option Nat),
+          (run (e'.out ++ [mds_FINISH]) base mj maxTicks fuel { pc := 0, lastNote := ln, lastRest := lr }).2 ∈
+            [Stop.finished, Stop.fuel, Stop.tooManyTicks]) := by
+  obtain ⟨e', h1, h2⟩ := codec_roundtrip_loops nS nM ts hl farg
+  exact ⟨e', h1, fun hb => ⟨(h2 hb).1, fun base mj maxTicks fuel ln lr => ((h2 hb).2 base mj ln lr).safe maxTicks fuel⟩⟩
+
+/-- the same for a looping track `a ++ [SEGNO] ++ b ++ [JUMP]` (`a`, `b` linear, stream < 64 KiB),
+however often the jump is followed -/
+theorem C03_codec_never_reads_outside_segno_partial (nS nM : Nat) (a b : List MEv)
+    (ha : ∀ ev ∈ a, linEv ev = true) (hb : ∀ ev ∈ b, linEv ev = true) (jarg : Nat) :
+    ∃ bytes, convertTrack nS nM (a ++ [⟨mds_SEGNO, 0⟩] ++ b ++ [⟨mds_JUMP, jarg⟩]) = .ok bytes ∧
+      (bytes.length < 65536 → ∀ (base mj maxTicks fuel : Nat) (ln lr : Option Nat),
+        (run bytes base mj maxTicks fuel { pc := 0, lastNote := ln, lastRest := lr }).2 ∈
+          [Stop.finished, Stop.fuel, Stop.tooManyTicks]) := by
+  obtain ⟨bytes, h1, h2⟩ := codec_roundtrip_segno nS nM a b ha hb jarg
+  exact ⟨bytes, h1, fun hlen base mj maxTicks fuel ln lr => (h2 hlen base mj ln lr).safe maxTicks fuel⟩
+
+/-- **The stream is terminated and well-formed: the walker accepts it** — linear tracks ending in
+`FINISH`: `SeqWf.walk` (with at least one unit of fuel per byte, as `checkAll` gives it) decodes
+instruction after instruction inside the stream and stops at the terminator, which is the last byte. -/
+theorem C03_stream_terminated_partial (nS nM : Nat) (es : List MEv) (hv : ∀ ev ∈ es, linEv ev = true) (farg : Nat) :
+    ∃ bytes pre, convertTrack nS nM (es ++ [⟨mds_FINISH, farg⟩]) = .ok bytes ∧ bytes = pre ++ [mds_FINISH] ∧
+      ∀ fuel, fuel ≥ bytes.length → SeqWf.walk bytes 0 fuel { pc := 0 } = .ok bytes.length := by
+  obtain ⟨bytes, h1, h2⟩ := walk_accepts_linear nS nM es hv farg
+  obtain ⟨pre, ops, hb, hl⟩ := C03_stream_ends_with_terminator nS nM es mds_FINISH farg bytes (.inl rfl) h1
+  simp only [if_true] at hl
+  have : ops = [] := List.eq_nil_of_length_eq_zero hl
+  subst this
+  exact ⟨bytes, pre, h1, hb, h2⟩
+
+/-- the same for looping tracks `a ++ [SEGNO] ++ b ++ [JUMP]` (`a`, `b` linear, stream < 64 KiB): the
+walker accepts, in particular the loop-back jump lands on an instruction boundary at loop depth 0 -/
+theorem C03_stream_terminated_segno_partial (nS nM : Nat) (a b : List MEv) (ha : ∀ ev ∈ a, linEv ev = true)
+    (hb : ∀ ev ∈ b, linEv ev = true) (jarg : Nat) :
+    ∃ bytes pre hi lo, convertTrack nS nM (a ++ [⟨mds_SEGNO, 0⟩] ++ b ++ [⟨mds_JUMP, jarg⟩]) = .ok bytes ∧
+      bytes = pre ++ [mds_JUMP, hi, lo] ∧
+      (bytes.length < 65536 →
+        ∀ fuel, fuel ≥ bytes.length → SeqWf.walk bytes 0 fuel { pc := 0 } = .ok bytes.length) := by
+  obtain ⟨bytes, h1, h2⟩ := walk_accepts_segno nS nM a b ha hb jarg
+  obtain ⟨pre, ops, hbt, hl⟩ := C03_stream_ends_with_terminator nS nM (a ++ [⟨mds_SEGNO, 0⟩] ++ b) mds_JUMP jarg bytes
+    (.inr (.inl rfl)) h1
+  have h2' : ops.length = 2 := by
+    have n1 : ¬ mds_JUMP = mds_FINISH := by decide
+    simpa [n1] using hl
+  match ops, h2' with
+  | [hi, lo], _ => exact ⟨bytes, pre, hi, lo, h1, hbt, h2⟩
+
+/-- the same for counted loops with and without break, nested (leaves linear, `FINISH` last, stream
+< 64 KiB): loop starts and ends are balanced and every back-patched break offset lands on the
+instruction after its loop end (that is what the walker checks) -/
+theorem C03_stream_terminated_loops_partial (nS nM : Nat) (ts : List Node) (hl : linL ts = true) (farg : Nat) :
+    ∃ e', encL nS nM ts {} = .ok e' ∧
+      (e'.out.length + 1 < 65536 →
+        convertTrack nS nM (flatL ts ++ [⟨mds_FINISH, farg⟩]) = .ok (e'.out ++ [mds_FINISH]) ∧
+        ∀ fuel, fuel ≥ e'.out.length + 1 →
+          SeqWf.walk (e'.out ++ [mds_FINISH]) 0 fuel { pc := 0 } = .ok (e'.out.length + 1)) :=
+  walk_accepts_loops nS nM ts hl farg
+
+/-- **The general single track** `ta, SEGNO, tb, JUMP` (bracket structures with nested counted loops
+with and without break over the linear fragment; loop point at depth 0; stream < 64 KiB): the
+walker accepts the stream and the interpreter never reads outside / meets an unknown opcode / a
+missing length / an empty loop stack, however often the jump is followed. -/
+theorem C03_track_wellformed_partial (nS nM : Nat) (ta tb : List Node) (ha : linL ta = true) (hb : linL tb = true)
+    (jarg : Nat) :
+    ∃ eA eB, encL nS nM ta {} = .ok eA ∧ encL nS nM tb (afterSegno eA) = .ok eB ∧
+      ((trackBytes eB).length < 65536 →
+        convertTrack nS nM (flatL ta ++ [⟨mds_SEGNO, 0⟩] ++ flatL tb ++ [⟨mds_JUMP, jarg⟩]) = .ok (trackBytes eB) ∧
+        (∀ fuel, fuel ≥ (trackBytes eB).length →
+          SeqWf.walk (trackBytes eB) 0 fuel { pc := 0 } = .ok (trackBytes eB).length) ∧
+        ∀ (base mj maxTicks fuel : Nat) (ln lr : Option Nat),
+          (run (trackBytes eB) base mj maxTicks fuel { pc := 0, lastNote := ln, lastRest := lr }).2 ∈
+            [Stop.finished, Stop.fuel, Stop.tooManyTicks]) := by
+  obtain ⟨eA, eB, hA, hB, h⟩ := codec_roundtrip_track nS nM ta tb ha hb jarg
+  obtain ⟨eA', eB', hA', hB', h'⟩ := walk_accepts_track nS nM ta tb ha hb jarg
+  rw [hA] at hA'; injection hA' with hA'; subst hA'
+  rw [hB] at hB'; injection hB' with hB'; subst hB'
+  exact ⟨eA, eB, hA, hB, fun hlen => ⟨(h hlen).1, (h' hlen).2,
+    fun base mj maxTicks fuel ln lr => ((h hlen).2 base mj ln lr).safe maxTicks fuel⟩⟩
+
+example : ∃ bytes, convertTrack 0 0 ([⟨0xa6, 24⟩] ++ [⟨mds_JUMP, 0⟩]) = .ok bytes := ⟨_, rfl⟩
+example : linL [.loop [.ev ⟨0xa6, 24⟩] 2] = true ∧ noBreakL [.loop [.ev ⟨0xa6, 24⟩] 2] = true := by decide
 
 end Ctrmml.C03
